@@ -24,6 +24,7 @@ pub fn start_watchdog() {
         let d = DEADLINE_MS.load(Ordering::SeqCst);
         if d != 0 && now_ms() > d {
             eprintln!("WATCHDOG: a call did not return in time");
+            if let Ok(l) = crate::observe::PANIC_LOG.lock() { for p in l.iter() { eprintln!("EARLIER-PANIC: {}", p); } }
             std::process::exit(3);
         }
     });
